@@ -63,6 +63,18 @@ theorem rware_illegal_step_eq_noop (cfg : Cfg) (s : State) (hc : Consistent cfg 
     step cfg s actions draws = step cfg s (actions.set i 0) draws :=
   RobotWarehouse.step_illegal_eq_noop hc actions draws hi ha ha5 hill
 
+/-- what `step` DOES with a legal FORWARD (audit r6 #6; `rware_step_agrees` is about `validActions s.mask`, the list the scan
+consumes): from a consistent state, whatever the other agents submit and whatever the draws, an agent whose FORWARD is legal by the
+rules ends the step on the cell in front of it (`newPos`: one cell in its direction, clamped at the border of the floor), direction
+and carrying flag unchanged — the move IS executed.  (Whether the step is then reported as a collision is another matter:
+`Props.C07.rware_follow_terminates_witness`.) -/
+theorem rware_legal_forward_executes (cfg : Cfg) (s : State) (hc : Consistent cfg s) (actions draws : List Int)
+    (i : Nat) (ag : Agent) (hi : s.agents[i]? = some ag) (ha : actions[i]? = some 1) (hl : legal s i 1) :
+    (step cfg s actions draws).1.agents[i]? =
+      some { ag with x := (newPos (gRows s.shelfGrid) (gCols s.shelfGrid) ag.x ag.y ag.dir).1,
+                     y := (newPos (gRows s.shelfGrid) (gCols s.shelfGrid) ag.x ag.y ag.dir).2 } :=
+  RobotWarehouse.legal_forward_executes cfg s hc actions draws i ag hi ha hl
+
 /-- the hypotheses are satisfiable, and both branches occur: on the witness FORWARD (illegal) is played as the
 no-op, TOGGLE_LOAD (legal) as itself -/
 example : Consistent rwareWitCfg rwareWit ∧ ¬ legal rwareWit 0 1 ∧ legal rwareWit 0 4 ∧
@@ -352,13 +364,67 @@ example : (0 < 2 ∧ 0 < 3) ∧ Jx.Grid.shaped Props.C04.rwareWit2Cfg.highways 2
   decide
 example : genState 2 3 [(0, 0), (1, 0)] [1, 0] [(0, 0), (1, 2)] [0] =
     { Props.C04.rwareWit2 with agents := [⟨0, 0, 1, false⟩, ⟨1, 0, 0, false⟩] } := by decide
+/-! #### audit r6 #1 (candidate finding RW3): `rwareNoCollision` is the L1 test `is_collision`
+(`grid[_AGENTS, x, y] != id + 1` after the per-agent scan), NOT "two agents on one cell".  It is SOUND
+(`rware_phys_collision_reported`: a physical collision is always reported) but it OVER-reports: an agent that
+moves onto the cell a HIGHER-numbered agent vacates in the same step has its fresh mark zeroed by that agent's
+`forward`, so a legal move of two agents to two different cells is reported as a collision and ends the episode;
+with the two ids exchanged the same physical move is MID.  Real code (reproduction in the report):
+`RobotWarehouse(RandomGenerator(1,3,2,num_agents=2,…))`, agents at (0,0),(0,1) facing right, action `[1,1]`:
+`step_type = 2`, positions (0,1),(0,2); agents at (0,1),(0,0): `step_type = 1`. -/
+
+def rwareFollowS : State :=
+  { shelfGrid := [[0, 0, 0]], agentGrid := [[1, 2, 0]], agents := [⟨0, 0, 1, false⟩, ⟨0, 1, 1, false⟩],
+    shelves := [], queue := [], stepCount := 0,
+    mask := [[true, true, true, true, true], [true, true, true, true, true]] }
+/-- the same two robots with the ids exchanged -/
+def rwareFollowS' : State :=
+  { rwareFollowS with agentGrid := [[2, 1, 0]], agents := [⟨0, 1, 1, false⟩, ⟨0, 0, 1, false⟩] }
+def rwareFollowCfg : Cfg := { timeLimit := 10, sensorRange := 1, highways := [[true, true, true]], goals := [] }
+
+/-- WITNESS (the converse of `rware_phys_collision_reported` FAILS, and `rware_last_iff`'s "collision" is not a
+physical one): 1×3 floor, agent 0 at (0,0), agent 1 at (0,1), both facing right, both FORWARD.  The state is
+`Consistent`, both actions are legal by the rules, the agents end on the DIFFERENT cells (0,1) and (0,2), yet
+`is_collision` reports and the step is LAST (step 1 of 10); with the ids exchanged the same move is MID. -/
+theorem rware_follow_terminates_witness :
+    Consistent rwareFollowCfg rwareFollowS ∧ legal rwareFollowS 0 1 ∧ legal rwareFollowS 1 1 ∧
+    (step rwareFollowCfg rwareFollowS [1, 1] []).1.agents = [⟨0, 1, 1, false⟩, ⟨0, 2, 1, false⟩] ∧
+    ((step rwareFollowCfg rwareFollowS [1, 1] []).1.agents.map apos).Nodup ∧
+    ¬ rwareNoCollision rwareFollowCfg rwareFollowS [1, 1] ∧
+    (step rwareFollowCfg rwareFollowS [1, 1] []).2.stepType = .last ∧
+    Consistent rwareFollowCfg rwareFollowS' ∧ (step rwareFollowCfg rwareFollowS' [1, 1] []).2.stepType = .mid ∧
+    (step rwareFollowCfg rwareFollowS' [1, 1] []).1.agents = [⟨0, 2, 1, false⟩, ⟨0, 1, 1, false⟩] := by
+  decide
+
+/-- `Props.C04.rware_legal_forward_executes` on the two-agent witness: agent 0 (carrying, facing right, free cell ahead) moves -/
+example : Consistent Props.C04.rwareWit2Cfg Props.C04.rwareWit2 ∧ legal Props.C04.rwareWit2 0 1 ∧
+    (step Props.C04.rwareWit2Cfg Props.C04.rwareWit2 [1, 2] [1]).1.agents[0]? =
+      some { (⟨0, 0, 1, true⟩ : Agent) with x := (newPos 2 3 0 0 1).1, y := (newPos 2 3 0 0 1).2 } := by decide
+
+/-- the SOUND direction (all states, all joint actions): if two different agents stand on one cell after the
+moves of the step, `is_collision` reports it (so by `Props.C11.rware_last_iff` the step is LAST) -/
+theorem rware_phys_collision_reported (cfg : Cfg) (s : State) (a : List Int) (i j : Nat)
+    (hij : i < j) (hj : j < s.agents.length)
+    (h : apos ((afterMoves cfg s a).agents.getD i default) = apos ((afterMoves cfg s a).agents.getD j default)) :
+    ¬ rwareNoCollision cfg s a := RobotWarehouse.phys_collision_reported cfg s a i j hij hj h
+
+/-- … stated on `step`: a step after which two different agents share a cell is LAST -/
+theorem rware_phys_collision_last (cfg : Cfg) (s : State) (a d : List Int) (i j : Nat)
+    (hij : i < j) (hj : j < s.agents.length)
+    (h : apos ((step cfg s a d).1.agents.getD i default) = apos ((step cfg s a d).1.agents.getD j default)) :
+    (step cfg s a d).2.stepType = .last := by
+  by_cases hl : (step cfg s a d).2.stepType = .last
+  · exact hl
+  · exact absurd (RobotWarehouse.noCollision_of_not_last hl)
+      (RobotWarehouse.phys_collision_reported cfg s a i j hij hj h)
 end Props.C07
 
 namespace Props.C05
 /-- C05 ("an illegal or masked action ALONE never ends the episode"): from a consistent state, when agent `i`
 submits an action that is illegal by the rules, the step is LAST exactly when the same joint action with the
 NO-OP in place of the illegal action leads to a collision (caused by the other agents' moves), or the time limit
-is reached; in particular, without such a collision and before the limit the step is MID -/
+is reached; in particular, without such a collision and before the limit the step is MID.  ("Collision" = the L1 test
+`is_collision`, which also fires when an agent follows a higher-numbered one: `Props.C07.rware_follow_terminates_witness`.) -/
 theorem rware_illegal_alone_never_last (cfg : Cfg) (s : State) (hc : Consistent cfg s) (actions draws : List Int)
     (i a : Nat) (hi : i < s.agents.length) (ha : actions[i]? = some (a : Int)) (ha5 : a < 5)
     (hill : ¬ legal s i a) :
@@ -395,7 +461,9 @@ theorem rware_time_limit (cfg : Cfg) (s : State) (a d : List Int) :
 
 /-- C11 / C05 (both directions, ALL states, joint actions and draws): a step is LAST exactly when `is_collision`
 reports a collision after the moves or the incremented step count reaches the time limit — there is no other
-cause of termination (in particular not an illegal or masked action, not a delivery) -/
+cause of termination (in particular not an illegal or masked action, not a delivery).  "Collision" here is the L1
+test `is_collision` (`rwareNoCollision`), which is implied by, but NOT equivalent to, two agents on one cell: see
+`Props.C07.rware_phys_collision_reported` and the witness `Props.C07.rware_follow_terminates_witness` (audit r6 #1) -/
 theorem rware_last_iff (cfg : Cfg) (s : State) (a d : List Int) :
     (step cfg s a d).2.stepType = .last ↔
       (¬ Props.C07.rwareNoCollision cfg s a ∨ s.stepCount + 1 ≥ cfg.timeLimit) :=
@@ -537,19 +605,31 @@ theorem robot_warehouse_obs_bounds_cover (cfg : Cfg) (o : Obs) :
 
 /-- the bound is attained: with `time_limit = 1` the first step emits `step_count = 1` -/
 example : (step { Props.C04.rwareWitCfg with timeLimit := 1 } Props.C04.rwareWit [0] []).2.obs.stepCount = 1 := by decide
+/-! NOTE on what the membership theorems of this section do and do not cover (audits r4 #6, r5 #6, r6 #8): the dtype tag of every leaf
+is written by `toNValue` (by construction) — a wrong dtype in the real code cannot falsify `….valid (toNValue …) = true`; dtypes and
+field order of the real observations are compared by the `robot_warehouse.spec` / `robot_warehouse.state` ops (`nvalue`: field order, shape, dtype, data) and
+`jax.eval_shape` in the sweeps.  Shapes are READ OFF the value by `toNValue` (widths off the first row): see `…_obs_valid_only`. -/
+
 /-! #### (wave 4) membership in the DECLARED specs: structure, shapes, dtypes and bounds -/
 open Sp PzS PkS MaS
 
 /-- the model's `obsSpec` / `actionSpec` / reward and discount specs ARE the specs generated from the real spec objects
 (Gen/Specs.lean) for the catalogue configuration `RobotWarehouse(RandomGenerator(1, 3, 2, num_agents=2, sensor_range=1, 2),
 time_limit=9)`: fields `agents_view`, `action_mask`, `step_count`; shapes `(A, num_obs_features) = (2, 66)`, `(A, 5)`, `()`;
-dtypes int32, bool, int32; `agents_view` UNBOUNDED (`specs.Array`), mask `[0, 1]`, counter `[0, time_limit]` -/
+dtypes int32, bool, int32; `agents_view` UNBOUNDED (`specs.Array`), mask `[0, 1]`, counter `[0, time_limit]`
+SPEC-ONLY second configuration (audit r6 #7): 3 agents, `sensor_range = 2` (`num_obs_features = 8 + 5·24 + 2·25 = 178`; the leaf has
+534 elements, but an unbounded `specs.Array` is one row of the table whatever its size), time limit 11 -/
 theorem robot_warehouse_obsSpec_generated :
     prefixed "observation_spec." (obsSpec ⟨9, 1, [], []⟩ 2) = declared "robotwarehouse-small" "observation_spec." ∧
     [("action_spec", actionSpec 2)] = declared "robotwarehouse-small" "action_spec" ∧
     [("reward_spec", PzS.rewardSpec)] = declared "robotwarehouse-small" "reward_spec" ∧
-    [("discount_spec", PzS.discountSpec)] = declared "robotwarehouse-small" "discount_spec" := by
-  refine ⟨by decide, by decide, by decide, by decide⟩
+    [("discount_spec", PzS.discountSpec)] = declared "robotwarehouse-small" "discount_spec" ∧
+    prefixed "observation_spec." (obsSpec ⟨11, 2, [], []⟩ 3) = declared "spec-only-robotwarehouse-3a-r2" "observation_spec." ∧
+    [("action_spec", actionSpec 3)] = declared "spec-only-robotwarehouse-3a-r2" "action_spec" ∧
+    [("reward_spec", PzS.rewardSpec)] = declared "spec-only-robotwarehouse-3a-r2" "reward_spec" ∧
+    [("discount_spec", PzS.discountSpec)] = declared "spec-only-robotwarehouse-3a-r2" "discount_spec" := by
+  refine ⟨by decide +kernel, by decide +kernel, by decide +kernel, by decide +kernel, by decide +kernel, by decide +kernel,
+    by decide +kernel, by decide +kernel⟩
 
 /-- the invariant behind the membership theorems (`A` agents, a cached `(A, 5)` mask, counter ≥ 0) is established by the
 generator for EVERY draw in the support of `spawn_random_entities` and preserved by EVERY step: any integers as joint action
@@ -565,7 +645,11 @@ theorem robot_warehouse_agentObs_length (cfg : Cfg) (w : World) (i : Nat) :
     (agentObs cfg w i).length = numFeatures cfg.sensorRange := RobotWarehouse.agentObs_length cfg w i
 
 /-- the `reset` observation is accepted by `observation_spec.validate` for EVERY draw of the generator (`A ≥ 1` agents,
-`time_limit ≥ 0`, any floor) -/
+`time_limit ≥ 0`, any floor).  NOTE (audit r6 #2): `0 ≤ time_limit` suffices for the RESET observation only; every step theorem
+below needs `step_count < time_limit`, i.e. `0 < time_limit` (the constructor accepts `time_limit = 0`; there the first step has
+`step_count = 1` outside `[0, 0]`, as for Snake / Connector: `Props.C01.snake_time_limit_zero_witness`).
+The dtype tag of every leaf is written by `toNValue` (by construction); dtypes and field order of the real observations are
+compared by the `robot_warehouse.spec` / `state` ops and `jax.eval_shape` in the sweeps. -/
 theorem robot_warehouse_reset_obs_valid (cfg : Cfg) (A q : Nat) (hA : 0 < A) (hT : 0 ≤ cfg.timeLimit) (d : SpawnDraw)
     (hd : validSpawn A q cfg.highways d = true) :
     (obsSpec cfg A).valid (toNValue (resetTs cfg (generate cfg d)).obs) = true :=
@@ -587,7 +671,8 @@ example : SpecInv 1 Props.C04.rwareWit := by decide
 
 /-- WHOLE PLAYS: along `run` (the L1 step iterated over ANY (joint action, draw) pairs) from the reset state of ANY draw of the
 generator, every observation emitted by one of the first `time_limit` steps is a member of the spec; step `time_limit` is LAST
-(`robot_warehouse_episode_last_by_limit`), so this covers every observation of every episode incl. the terminal one -/
+(`Props.C11.rware_generated_episode_last_by_limit`; composed: `robot_warehouse_episode_obs_valid` below), so this covers every
+observation of every episode incl. the terminal one -/
 theorem robot_warehouse_obs_valid_along (cfg : Cfg) (A q : Nat) (hA : 0 < A) (d : SpawnDraw)
     (hd : validSpawn A q cfg.highways d = true) (ps : List (List Int × List Int)) (j : Nat)
     (hj : (j : Int) < cfg.timeLimit) (e : State × TimeStep Obs) (he : (run cfg (generate cfg d) ps)[j]? = some e) :
@@ -601,11 +686,35 @@ theorem robot_warehouse_run_obs_valid (cfg : Cfg) (A : Nat) (hA : 0 < A) (s : St
 
 /-- what membership means: `validate` accepts an observation ONLY IF there are `A` sensor vectors with `A · num_obs_features`
 entries in all, the mask is `(A, 5)` and the counter lies in `[0, time_limit]` (the sensor VALUES are unconstrained: the leaf is
-an unbounded `Array`) -/
+an unbounded `Array`).  CAVEAT (audit r6 #5): `shape2` reads the width off the FIRST row — a ragged value with the right total is a
+member; rectangularity (`Rect2`) is part of `SpecInv` / `ObsOK` and exported for every emitted observation by
+`robot_warehouse_step_obs_rect` below. -/
 theorem robot_warehouse_obs_valid_only (cfg : Cfg) (A : Nat) (o : Obs) (h : (obsSpec cfg A).valid (toNValue o) = true) :
     shape2 o.view = [A, numFeatures cfg.sensorRange] ∧ o.view.flatten.length = A * numFeatures cfg.sensorRange ∧
     shape2 o.mask = [A, 5] ∧ o.mask.flatten.length = A * 5 ∧ 0 ≤ o.stepCount ∧ o.stepCount ≤ cfg.timeLimit :=
   RobotWarehouse.obs_valid_only cfg A o h
+
+/-- the rectangular facts `valid ∘ toNValue` does not imply (audit r6 #5), for every step observation from a state with the invariant:
+`A` sensor vectors EACH of length `num_obs_features`, `A` mask rows EACH of length 5, the counter in `[0, time_limit]` -/
+theorem robot_warehouse_step_obs_rect (cfg : Cfg) (A : Nat) (s : State) (h : SpecInv A s)
+    (hlim : s.stepCount < cfg.timeLimit) (a d : List Int) :
+    Rect2 (step cfg s a d).2.obs.view A (numFeatures cfg.sensorRange) ∧ Rect2 (step cfg s a d).2.obs.mask A 5 ∧
+    0 ≤ (step cfg s a d).2.obs.stepCount ∧ (step cfg s a d).2.obs.stepCount ≤ cfg.timeLimit :=
+  RobotWarehouse.step_obs_ok cfg A s h hlim a d
+
+/-- ONE statement for whole episodes (audit r6 #9): from the reset state of EVERY draw of the generator, for ANY play of at least
+`time_limit ≥ 1` (joint action, draw) pairs: the reset observation is a member of the declared spec, there IS a first LAST
+timestep, its 0-based index `k` satisfies `k + 1 ≤ time_limit`, and the observation of every step up to and including it is a
+member -/
+theorem robot_warehouse_episode_obs_valid (cfg : Cfg) (A q : Nat) (hA : 0 < A) (d : SpawnDraw)
+    (hd : validSpawn A q cfg.highways d = true) (T : Nat) (hT : cfg.timeLimit = (T : Int)) (hpos : 0 < T)
+    (ps : List (List Int × List Int)) (hlen : T ≤ ps.length) :
+    (obsSpec cfg A).valid (toNValue (resetTs cfg (generate cfg d)).obs) = true ∧
+    ∃ k, Props.C11.rwareFirstLast (run cfg (generate cfg d) ps) = some k ∧ k + 1 ≤ T ∧
+      ∀ j e, j ≤ k → (run cfg (generate cfg d) ps)[j]? = some e → (obsSpec cfg A).valid (toNValue e.2.obs) = true := by
+  refine ⟨robot_warehouse_reset_obs_valid cfg A q hA (by omega) d hd, ?_⟩
+  obtain ⟨k, hk1, hk2⟩ := Props.C11.rware_generated_episode_last_by_limit cfg d ps T hT hpos hlen
+  exact ⟨k, hk1, hk2, fun j e hj he => robot_warehouse_obs_valid_along cfg A q hA d hd ps j (by omega) e he⟩
 
 /-- positive: the reset observation and the observation after a step of the witness; negative: a counter beyond the limit, the
 spec of two agents, the spec of another sensor range, a sensor vector one entry short -/
